@@ -156,3 +156,49 @@ Proof.
     apply NoDup_app in NDo as (_ & N12 & _). apply (N12 b); [|by rewrite <- owned_datas].
     unfold datas. rewrite flat_singleton. cbn. rewrite app_nil_r. done.
 Qed.
+
+(** * key arguments that ALIAS memory of the item being added / used as replacement
+      (the C code duplicates the name BEFORE it releases the item's old key: repaired defect F5) *)
+Lemma own_key_name_ok h S x d cs kb :
+  Abs3 h S -> find_root x (a_forest S) = Some (T x d cs) -> rd_key d = Some kb -> name_ok S (Some kb).
+Proof.
+  intros [(_ & _ & _ & KO) _] Hx Hk. apply find_root_Some in Hx as [Hx _].
+  assert (He : (x, d) ∈ datas (a_forest S)).
+  { unfold datas. apply elem_of_list_fmap. exists (flat_of (T x d cs)). split; [done|]. by apply elem_of_flat, roots_in_nodes. }
+  destruct (KO (x, d) kb He Hk) as [(s & Hs & Hz) _]. by exists kb, s.
+Qed.
+
+(** cJSON_AddItemToObject(object, item->string, item) *)
+Theorem add_with_own_key h S p x d cs kb :
+  Abs3 h S -> find_root x (a_forest S) = Some (T x d cs) -> rd_key d = Some kb ->
+  movable_into (a_forest S) p x ->
+  exists h', add_item_to_object nv (Some p) (Some kb) (Some x) false h = Ret (true, h') /\
+             Abs3 h' (s2 S (OAddObj (Some p) (Some kb) (Some x) false)).1.
+Proof.
+  intros HA Hx Hk Hmov. pose proof (own_key_name_ok h S x d cs kb HA Hx Hk) as Hn.
+  assert (Hpre : pre_ok2 S (OAddObj (Some p) (Some kb) (Some x) false)).
+  { cbn. right. exists p, x. split_and!; try done. }
+  destruct (Step_add_item_to_object S (Some p) (Some kb) (Some x) false Hpre h HA) as (h' & E & HA').
+  exists h'. split; [|done]. rewrite E. do 2 f_equal.
+  (* the model says: accepted *)
+  destruct Hmov as (Hpx & tx & dp & csp & Hx' & Hp & Hr). rewrite Hx in Hx'. injection Hx' as <-.
+  pose proof HA as [((W & _ & Hnext & Hreq) & Hs & [SI1 _] & _) _].
+  destruct Hn as (nb & s & [= <-] & Hs1 & Hz).
+  assert (HR : CoreRefineObject.Readable h kb).
+  { split; [by apply (SI1 _ _ Hs1)|]. exists s. by rewrite Hs. }
+  destruct (add_item_to_object_sim_owned nv h _ p x kb d dp cs csp W Hpx Hx Hp Hr s HR ltac:(by rewrite Hs) eq_refl) as (Hspec & _).
+  unfold s2, spec_step2. rewrite decide_False by done. cbn [nv never]. unfold a_forest. rewrite <- Hnext, Hspec. done.
+Qed.
+
+(** cJSON_ReplaceItemInObject(object, replacement->string, replacement) *)
+Theorem replace_with_own_key h S p r d cs kb case_sensitive :
+  Abs3 h S -> find_root r (a_forest S) = Some (T r d cs) -> rd_key d = Some kb ->
+  movable_into (a_forest S) p r ->
+  exists h', replace_item_in_object nv (Some p) (Some kb) (Some r) case_sensitive h =
+               Ret ((spec_replace_key3 S (Some p) (Some kb) (Some r) case_sensitive).2, h') /\
+             Abs3 h' (spec_replace_key3 S (Some p) (Some kb) (Some r) case_sensitive).1.
+Proof.
+  intros HA Hx Hk Hmov. pose proof (own_key_name_ok h S r d cs kb HA Hx Hk) as Hn.
+  apply (Step_replace_key S (Some p) (Some kb) (Some r) case_sensitive); [|done].
+  right. exists p, r. done.
+Qed.
